@@ -5,7 +5,7 @@ from pv.contract import contract, CLASS_INV
 contract('parso.tree.Leaf.start_pos', kind='property', params={'self': 'ref:Leaf'}, returns='pos',
          ensures=['result == (self.line, self.column)'], props=['C03'])
 contract('parso.tree.Leaf.start_pos', setter=True, params={'self': 'ref:Leaf', 'value': 'pos'},
-         ensures=['self.line == value[0]', 'self.column == value[1]'], modifies=['line', 'column'], props=['C03', 'C19'])
+         ensures=['self.line == value[0]', 'self.column == value[1]'], modifies=['self.line', 'self.column'], props=['C03', 'C19'])
 contract('parso.tree.Leaf.end_pos', kind='property', params={'self': 'ref:Leaf'}, returns='pos',
          requires=['self is not None'],
          ensures=['result == advance((self.line, self.column), self.value)'], props=['C03'])
@@ -32,7 +32,7 @@ contract('parso.python.prefix.PrefixPart.__init__',
          requires=[],
          ensures=['self.parent is leaf', 'self.type == typ', 'self.value == value', 'self.spacing == spacing',
                   'self.start_pos == start_pos'],
-         modifies=['parent', 'type', 'value', 'spacing', 'start_pos'], props=['C09'])
+         modifies=['self.parent', 'self.type', 'self.value', 'self.spacing', 'self.start_pos'], props=['C09'])
 
 contract('parso.python.prefix.PrefixPart.create_spacing_part', params={'self': 'ref:PrefixPart'},
          returns='ref:PrefixPart',
